@@ -128,4 +128,23 @@ def run_case(ctx, case):
     if got != want or tuple(dec.netqasm_version) != tuple(case["version"]) or dec.app_id != case["app_id"]:
         first = next((f"{w} read as {g}" for g, w in zip(got, want) if g != w), "header/length")
         ctx.fail(case, f"{flav}: reference bytes are decoded differently by the repo: {first}")
+    elif case["kind"] == "sequence" and case["instrs"]:
+        # the wire bytes of a Subroutine object are those of its *current* content: update operands / the list in place
+        # after the first encoding and compare with the reference encoding of the updated program
+        import dataclasses
+        rng = ctx.rng
+        instrs2 = [[m, codec.rand_values(rng, isa.TABLE[flav][m][1])] for m, _ in case["instrs"]]
+        for obj, (m, v) in zip(sub.instructions, instrs2):
+            donor = codec.mk_instr(fobj, flav, m, v)
+            for f in dataclasses.fields(obj):
+                if f.name not in ("id", "mnemonic", "lineno"):
+                    setattr(obj, f.name, getattr(donor, f.name))
+        extra = rng.choice(sorted(isa.TABLE[flav]))
+        ev = codec.rand_values(rng, isa.TABLE[flav][extra][1])
+        sub.instructions.append(codec.mk_instr(fobj, flav, extra, ev))
+        ctx.count("reencodings_after_update")
+        ref2 = isa.encode_subroutine(flav, case["version"], case["app_id"], instrs2 + [[extra, ev]])
+        if bytes(sub) != ref2:
+            ctx.fail(case, f"{flav}: after operands were updated in place and an instruction appended, bytes(Subroutine) is not the "
+                           f"reference encoding of the updated program (stale encoding)")
     ctx.case(case, nontrivial)
